@@ -26,6 +26,12 @@ class SymArray(np.ndarray):
     def __setitem__(self, k, v):
         np.ndarray.__setitem__(self, k, _lift_value(v))
 
+    def __array_wrap__(self, obj, context=None, return_scalar=False):
+        # reductions of an ndarray subclass come back as 0-d arrays of the subclass: hand out the element itself
+        if isinstance(obj, np.ndarray) and obj.ndim == 0 and obj.dtype == object:
+            return obj[()]
+        return np.ndarray.__array_wrap__(self, obj, context, return_scalar)
+
     def astype(self, dtype, *a, **k):
         try:
             if np.dtype(dtype).kind == "f":
